@@ -187,6 +187,10 @@ func exploreBound(sc *Scenario, b int, opt Options, st *Stats, outcomes map[uint
 				}
 			}
 		}
+		if sc.FirstOnly {
+			capSeen["default schedule only (FirstOnly)"] = true
+			return true
+		}
 		// rebuild the stack for the part beyond the prefix
 		stack = stack[:len(prefix)]
 		for i := len(prefix); i < len(x.trace); i++ {
